@@ -142,6 +142,10 @@ def gen_media(ch, spec):
         cfg["seq0"], cfg["ts0"] = ch.randint("cfg", 0, 65535, 777), ch.randint("cfg", 0, 0xFFFFFFFF, 777)
     cfg["rtx_seq0"] = ch.choice("cfg", [5, 65530, 30000])
     cfg["pts0"] = ch.choice("cfg", [0, 0, 3000, 0xFFFF0000])
+    if origin == "wrap" and ch.chance("cfg", 0.35):
+        # one frame's RTP timestamp lands exactly on 0 (legal, and falsy)
+        cfg["ts0"] = (-3000 * ch.choice("cfg", [1, 2, 5, 9]) - cfg["pts0"]) % (1 << 32)
+        cfg["ts_zero"] = True
     cfg["ssrc"] = ch.randint("cfg", 1, 0xFFFFFFFF, 4321)
     cfg["rtx_ssrc"] = (cfg["ssrc"] ^ 0x5A5A5A5A) or 7
     cfg["sched"] = ch.chance("cfg", 0.7, True)
@@ -556,6 +560,10 @@ def gen_dtls(ch, spec):
             entries.append({"alg": alg, "algcase": ch.choice("cfg", ["lower", "lower", "upper", "title"]),
                             "kind": kind, "case": ch.choice("cfg", ["upper", "lower", "mixed"]),
                             "flip": ch.randint("cfg", 0, 1000, 0)})
+            if kind == "bad":
+                # how the value differs from the digest: one digit, a leading part of it, the digest plus one
+                # octet, nothing at all
+                entries[-1]["how"] = ch.choice("cfg", ["flip", "flip", "prefix", "prefix", "extended", "empty"])
         cfg["fp_" + side] = entries
         k = ch.choice("cfg", [3, 3, 2, 1])
         perm = [0, 1, 2]
@@ -579,7 +587,8 @@ def gen_dtls(ch, spec):
         ops.append({"dir": ch.choice("wl", ["A", "B"]), "kind": ch.choice("wl", ["rtp", "rtp", "rtcp", "data"]),
                     # payload types outside 64..80 (which collide with RTCP packet types once the marker bit is set)
                     "pt": ch.choice("wl", [96, 96, 0, 8, 13, 35, 63, 81, 90, 95, 111, 127]), "marker": ch.index("wl", 2),
-                    "size": ch.choice("wl", [0, 1, 20, 200, 1000, 1150]), "dt": ch.choice("wl", [0.0, 0.001, 0.02, 0.2])})
+                    "size": ch.choice("wl", [0, 1, 20, 200, 1000, 1150, 1228, 1300, 1400]),
+                    "dt": ch.choice("wl", [0.0, 0.001, 0.02, 0.2])})
     return cfg, ops
 
 
@@ -663,8 +672,17 @@ class DtlsWorld(MediaBase):
             hx = hashlib.new(e["alg"].replace("-", "")).hexdigest() if False else \
                 hashlib.new(e["alg"].replace("-", ""), der).hexdigest()
             if e["kind"] == "bad":
+                how = e.get("how", "flip")
                 i = e["flip"] % len(hx)
-                hx = hx[:i] + ("0" if hx[i] != "0" else "f") + hx[i + 1:]
+                if how == "flip":
+                    hx = hx[:i] + ("0" if hx[i] != "0" else "f") + hx[i + 1:]
+                elif how == "prefix":
+                    octets = len(hx) // 2
+                    hx = hx[:2 * [1, octets // 2, octets - 1][e["flip"] % 3]]
+                elif how == "extended":
+                    hx = hx + "00"
+                else:
+                    hx = ""
             val = ":".join(hx[i:i + 2] for i in range(0, len(hx), 2))
             val = {"upper": val.upper(), "lower": val.lower(),
                    "mixed": "".join(c.upper() if k % 3 else c.lower() for k, c in enumerate(val))}[e["case"]]
@@ -769,7 +787,9 @@ class DtlsWorld(MediaBase):
         pair = self.pair
         d = pair.dtls[n]
         self.counter += 1
-        body = bytes(((self.counter * 31 + i * 7) & 0xFF) for i in range(op["size"]))
+        # (libsrtp's buffer bounds an RTP packet at 1500 bytes minus its 144-byte worst-case trailer)
+        size = op["size"] if op["kind"] == "data" else min(op["size"], 1300)
+        body = bytes(((self.counter * 31 + i * 7) & 0xFF) for i in range(size))
         # early = sent the instant this side connected, possibly before the peer has: it may be lost
         # (no keys there yet), it must never be delivered altered or by a transport that ends up failed
         item = {"kind": op["kind"], "fate": None, "early": bool(op.get("early"))}
